@@ -261,4 +261,10 @@ def r19_5(ctx):
                "the pair slices of the two operands are compared position by position: two parsed objects with the same members in a different order compare unequal")
 
 
-RULES = [("R19.1", r19_1), ("R19.2", r19_2), ("R19.3", r19_3), ("R19.4", r19_4), ("R19.5", r19_5)]
+def r19_s(ctx):
+    """numeric map keys and numbers of the DOM route are read by the one number parser (shared with C07)"""
+    from . import c07
+    ctx.include(c07.r07_14, "R19.S")
+
+
+RULES = [("R19.1", r19_1), ("R19.2", r19_2), ("R19.3", r19_3), ("R19.4", r19_4), ("R19.5", r19_5), ("R19.S", r19_s)]
